@@ -20,7 +20,7 @@ pub fn scenarios() -> Vec<Scenario> {
         name: "c12-invariants",
         gen,
         run,
-        quick_runs: 250_000,
+        quick_runs: 1_500_000,
         weight: 1,
         rule: "case = byte string (valid traffic with corruptions aimed at string / topic / identifier / integer fields); non-trivial when at least one front-end accepts and the input is not a plain canonical encoding; distinct by case hash",
     }]
